@@ -124,7 +124,9 @@ pub fn run(args: &Args) {
             o.nested = rng.chance(1, 2); o.transforms = rng.chance(1, 3);
             let mut d = design::gen_design(&mut rng, &o);
             crate::c01::decorate(&mut d, &mut rng);
-            (format!("generated-{i}"), write::write_design(tmp.path(), &d))
+            let ds = write::write_design(tmp.path(), &d);
+            irregularize(&ds, &d, &mut rng);
+            (format!("generated-{i}"), ds)
         };
         let runs: Vec<RunCfg> = [1usize, 2, 5, 16, 3, 8].iter().enumerate().map(|(k, t)| RunCfg {
             threads: *t, jitter: if k % 2 == 1 { 1 + rng.next() % 1_000_000 } else { 0 } }).collect();
@@ -167,5 +169,59 @@ pub fn decorate(d: &mut design::Design, rng: &mut Rng) {
     for mi in 1..n_masters.min(3) {
         if d.masters[mi].sparse { continue; }
         d.instances.push(design::Instance { family: d.family.clone(), style: format!("Style{mi}"), postscript: Some(format!("VerifTest-Style{mi}")), loc: d.masters[mi].loc.clone() });
+    }
+}
+
+/// Valid but unusual source structure, applied to the written files (the build only has to be repeatable, the design
+/// is not interpreted by the oracle):
+///  * the default master's UFO is listed by a second `<source>` at another location (one .glif at two locations);
+///  * non-default masters disagree with the default master about a glyph's codepoints (fontc warns and takes the
+///    default master's) and list their anchors in another order.
+pub fn irregularize(ds: &Path, d: &design::Design, rng: &mut Rng) {
+    let Ok(mut xml) = std::fs::read_to_string(ds) else { return };
+    if rng.chance(1, 2) && !d.axes.is_empty() {
+        if let Some(p) = xml.find("<lib copy=\"1\"/>") {
+            let start = xml[..p].rfind("<source ").unwrap();
+            let end = p + xml[p..].find("</source>").unwrap() + "</source>\n".len();
+            let block = xml[start..end].to_string();
+            let a = &d.axes[0];
+            let (dmin, ddef, dmax) = (d.user_to_design(0, a.min), d.user_to_design(0, a.default), d.user_to_design(0, a.max));
+            let target = if dmax != ddef { ddef + (dmax - ddef) * 0.3 } else { ddef + (dmin - ddef) * 0.3 };
+            let def_dim = format!("<dimension name=\"{}\" xvalue=\"{}\"/>", write::xml_escape(&a.name), write::num(ddef));
+            let new_dim = format!("<dimension name=\"{}\" xvalue=\"{}\"/>", write::xml_escape(&a.name), write::num(target));
+            if block.contains(&def_dim) && target != ddef {
+                let dup = block.replace("      <lib copy=\"1\"/><groups copy=\"1\"/><features copy=\"1\"/><info copy=\"1\"/>\n", "")
+                    .replacen(&def_dim, &new_dim, 1)
+                    .replacen(&format!("name=\"{}\"", write::xml_escape(&d.masters[d.default_master].name)), "name=\"Mreuse\"", 1);
+                xml.insert_str(end, &dup);
+                let _ = std::fs::write(ds, &xml);
+            }
+        }
+    }
+    if rng.chance(1, 2) {
+        let dir = ds.parent().unwrap();
+        for (mi, m) in d.masters.iter().enumerate() {
+            if mi == d.default_master || m.sparse { continue; }
+            let gdir = dir.join(write::ufo_name(d, mi)).join("glyphs");
+            let Ok(rd) = std::fs::read_dir(&gdir) else { continue };
+            let mut files: Vec<PathBuf> = rd.filter_map(|e| e.ok().map(|e| e.path())).filter(|p| p.extension().is_some_and(|e| e == "glif")).collect();
+            files.sort();
+            for (k, f) in files.iter().enumerate() {
+                let Ok(t) = std::fs::read_to_string(f) else { continue };
+                let mut lines: Vec<String> = t.lines().map(|l| l.to_string()).collect();
+                if rng.chance(1, 3) {
+                    if let Some(p) = lines.iter().position(|l| l.trim_start().starts_with("<advance")) {
+                        lines.insert(p + 1, format!("  <unicode hex=\"{:04X}\"/>", 0xE100 + 16 * mi + k));
+                    }
+                }
+                let an: Vec<usize> = lines.iter().enumerate().filter(|(_, l)| l.trim_start().starts_with("<anchor")).map(|(i, _)| i).collect();
+                if an.len() >= 2 {
+                    let mut texts: Vec<String> = an.iter().map(|i| lines[*i].clone()).collect();
+                    texts.reverse();
+                    for (i, t) in an.iter().zip(texts) { lines[*i] = t; }
+                }
+                let _ = std::fs::write(f, lines.join("\n") + "\n");
+            }
+        }
     }
 }
